@@ -289,6 +289,7 @@ struct Obs {
     trusted_in_sync_phase: u64,
     answers_in_sync_phase: u64,
     restarts: u64,
+    reboots: u64,
     polls: u64,
     order_checks: u64,
     gap_checks: u64,
@@ -310,7 +311,9 @@ impl Sim {
     }
 
     fn start_daemon(&mut self) {
-        self.daemon = Some(Daemon::start(&self.path, self.drift_ppb, true));
+        // (the real ShmWriter itself is the sink: whatever the daemon does with its writer at
+        // start-up or later happens for real; publications are seen through the file)
+        self.daemon = Some(Daemon::start_plain(&self.path, self.drift_ppb));
         // ClockErrorBoundPoller::default(): the last answer is 5 s in the past.
         self.last_good_mono = self.world.lock().unwrap().mono_ns() - 5 * NS;
         *self.last_good.lock().unwrap() = self.last_good_mono;
@@ -691,6 +694,37 @@ fn one_history(a: &Args, mode: &str, seed: u64, obs: &mut Obs, violations: &mut 
             history.push(format!("#{} daemon restart at mono {}", n, world.lock().unwrap().mono_ns()));
             sim.query(a, prop, rng.chance(1, 2), "first-instant-after-restart", 0, obs, violations, &history, false);
         }
+        // --- the machine reboots now and then, and the segment file survives it (a /var/run that
+        // is not a tmpfs): CLOCK_MONOTONIC starts again near zero, the wall clock is set from the
+        // RTC (seconds off), chronyd has not synchronised yet. Clients come back once the new
+        // daemon has published for the first time.
+        let mut forced: Option<Step> = None;
+        if mode == "c01" && rng.chance(1, 120) {
+            obs.reboots += 1;
+            if let Some(mut d) = sim.daemon.take() {
+                d.stop();
+            }
+            sim.client = None;
+            {
+                let mut w = world.lock().unwrap();
+                let down = rng.range(5, 300) as i128 * NS;
+                w.advance(down);
+                let up = match rng.below(3) { 0 => rng.range(200_000_000, 5_000_000_000) as i128, 1 => rng.range(5, 200) as i128 * NS, _ => rng.range(200, 2_000_000) as i128 * NS };
+                w.t_boot = w.t - up;
+                w.err_units = rng.range(-2_000_000_000, 2_000_000_000) as i128 * UNIT;
+            }
+            sim.start_daemon();
+            let (m_now, e_now) = {
+                let w = world.lock().unwrap();
+                (w.mono_ns(), w.err_units / UNIT)
+            };
+            history.push(format!("#{} machine reboot: monotonic clock now {} ns, wall clock error {} ns, segment file kept", n, m_now, e_now));
+            outage_left = 0;
+            forced = Some(match rng.below(3) {
+                0 => Step::Silence,
+                _ => Step::Answer { kind: AnswerKind::Unsync, request_latency: 0, reply_latency: 0, tight: false, ref_id: 0x7f7f_0101, phc_share: 0 },
+            });
+        }
         // --- PHC file trouble
         if with_phc && rng.chance(1, 25) {
             phc_broken = !phc_broken;
@@ -704,7 +738,9 @@ fn one_history(a: &Args, mode: &str, seed: u64, obs: &mut Obs, violations: &mut 
             writeln!(f, "{}", sim.phc_value).unwrap();
         }
         // --- the poll
-        let step = if outage_left > 0 {
+        let step = if let Some(f) = forced.take() {
+            f
+        } else if outage_left > 0 {
             outage_left -= 1;
             Step::Silence
         } else {
@@ -792,7 +828,7 @@ pub fn run(mode: &str, a: &Args) -> Value {
     }
     let mut v = json!({
         "evaluations": evaluations, "distinct": distinct.len(), "polls": obs.polls, "answers_by_status": obs.answers_by_status, "outcomes_by_kind": obs.outcomes_by_kind,
-        "adversarial_instants": obs.adversarial_instants, "min_margin_ns": obs.min_margin_ns.map(|m| m.to_string()), "restarts": obs.restarts,
+        "adversarial_instants": obs.adversarial_instants, "min_margin_ns": obs.min_margin_ns.map(|m| m.to_string()), "restarts": obs.restarts, "reboots": obs.reboots,
         "trusted_in_sync_phase": obs.trusted_in_sync_phase, "answers_in_sync_phase": obs.answers_in_sync_phase, "order_checks": obs.order_checks, "gap_checks": obs.gap_checks,
         "msg_checks": obs.msg_checks, "client_errors": obs.client_errors, "violations": violations, "samples": samples,
     });
